@@ -54,7 +54,9 @@ def _work(job):
     mine = [(sub, s) for j, (sub, s) in enumerate(O.labelled_states(shape, kmax)) if j % parts == i]
     n = cases = 0
     fails = []
-    for name in O.DET_FUNCS:
+    # every deterministic function, in the registry order and then again in the opposite order (an observation cached by one
+    # function must not leak into another's)
+    for name in O.DET_FUNCS + ['partially_occluded', 'fully_transparent']:
         for area in (areas_ft if name == 'fully_transparent' else areas_occl):
             if not O.applicable(name, area):
                 continue
